@@ -26,6 +26,10 @@ func (fr *frame) modifiedInLoop(h *ssa.BasicBlock) (keys map[string]bool, all bo
 		case *ssa.IndexAddr:
 			b, p := baseOf(x.X)
 			return b, append(p, -1)
+		case *ssa.UnOp:
+			if _, isSlice := x.Type().Underlying().(*types.Slice); isSlice && x.Op == token.MUL {
+				return baseOf(x.X)
+			}
 		}
 		return v, nil
 	}
@@ -283,6 +287,7 @@ func (fr *frame) run(entry *State, entryReach string) {
 					fr.rangeAssume(fr.vals[phi], phi.Type())
 				}
 			}
+			fr.loopEntry[fr.ordinal[b]] = st.clone()
 			fr.checkInvariants(b, preds, false)
 			keys, all, locals := fr.modifiedInLoop(b)
 			if all {
@@ -483,6 +488,15 @@ func (fr *frame) instr(b *ssa.BasicBlock, idx int, in ssa.Instruction, st *State
 			es := P.SortOf(in.X.Type().Underlying().(*types.Slice).Elem())
 			s := P.SeqSort(es)
 			fr.safetyObl(R, "index", in, fmt.Sprintf("(and (<= 0 %s) (< %s (len_%s %s)))", idxT, idxT, s, fr.val(in.X)))
+			if lf, ok := fr.loadedFrom[in.X]; ok {
+				// the slice was loaded from a location that still holds the same value: address the element in place
+				if cur, _ := fc.load(st, lf.a); cur == lf.term {
+					na := *lf.a
+					na.path = append(append([]pathEl{}, lf.a.path...), pathEl{isIdx: true, index: idxT})
+					fr.addrs[in] = &na
+					return
+				}
+			}
 			fr.addrs[in] = &addr{kind: 3, seq: fr.val(in.X), seqT: in.X.Type(), path: []pathEl{{isIdx: true, index: idxT}}}
 			// remember the slice origin so that element stores into local/fresh slices can be handled
 			return
@@ -520,6 +534,9 @@ func (fr *frame) instr(b *ssa.BasicBlock, idx int, in ssa.Instruction, st *State
 			t, _ := fc.load(st, a)
 			n := fr.define(in, t)
 			fr.loadedAssume(n, in.Type(), st)
+			if _, isSlice := in.Type().Underlying().(*types.Slice); isSlice && a.kind != 3 {
+				fr.loadedFrom[in] = &loadedFrom{a: a, term: t}
+			}
 		case token.NOT:
 			fr.define(in, fmt.Sprintf("(not %s)", fr.val(in.X)))
 		case token.SUB:
